@@ -12,7 +12,7 @@ use crate::report::{run_cases, Ctx, Report, Violation};
 use crate::rng::Rng;
 use serde_json::json;
 
-fn legal_value(id: u8) -> PVal {
+pub(crate) fn legal_value(id: u8) -> PVal {
     match prop_type(id).unwrap() {
         PType::Byte => PVal::Byte(1),
         PType::U16 => PVal::U16(5),
@@ -54,7 +54,7 @@ fn value_cells(id: u8) -> Vec<(&'static str, PVal)> {
 /// valid carrier of a location with the given property list. `variant` 0 is the minimal packet; variant 1 differs in
 /// everything around the property list that the specification lets vary (a failure reason code, QoS 2 / RETAIN / DUP,
 /// a kept session with credentials, several subscription entries): the verdict on the property list must not depend on it
-fn carrier(loc: Loc, props: Vec<Prop>, auth_has_method: bool, variant: u8) -> Pkt {
+pub(crate) fn carrier(loc: Loc, props: Vec<Prop>, auth_has_method: bool, variant: u8) -> Pkt {
     let v = Ver::V5;
     let alt = variant == 1;
     match loc {
@@ -166,7 +166,7 @@ fn judge(rep: &mut Report, a: &Pkt, cell: &str, want: bool, attrs: &str, case: (
 
 /// Authentication Data needs an Authentication Method next to it (spec 3.1.2.11.10 / 3.15.2.2.3); an AUTH carrier
 /// with reason 0x18 needs the method as well. Returns (props, auth_has_method).
-fn with_auth_method(loc: Loc, mut props: Vec<Prop>) -> (Vec<Prop>, bool) {
+pub(crate) fn with_auth_method(loc: Loc, mut props: Vec<Prop>) -> (Vec<Prop>, bool) {
     let has21 = props.iter().any(|p| p.id == 21);
     let has22 = props.iter().any(|p| p.id == 22);
     let mut auth_has_method = false;
@@ -216,6 +216,24 @@ pub fn run(ctx: &Ctx) -> Report {
                         judge(&mut rep, &a, &cell, want, &format!("prop={};loc={:?};count={};value={}{}", id, loc, count, vname, if variant == 1 { ";carrier=alt" } else { "" }), case);
                     }
                 }
+            }
+        }
+    }
+    // ---- many copies: "at most once" holds for 3, 255, 256, 257 and 1000 occurrences as it does for 2
+    for (id, _, name) in PROP_TABLE.iter() {
+        for loc in ALL_LOCS {
+            if !prop_allowed(*id, loc) || *id == 21 || *id == 22 {
+                continue;
+            }
+            for count in [3usize, 255, 256, 257, 1000] {
+                let p = Prop { id: *id, val: legal_value(*id) };
+                let list: Vec<Prop> = (0..count).map(|_| p.clone()).collect();
+                let want = prop_repeatable(*id, loc);
+                let (props, auth_has_method) = with_auth_method(loc, list);
+                let a = carrier(loc, props, auth_has_method, (count % 2) as u8);
+                let cell = format!("{}({}) in {:?} x{}", name, id, loc, count);
+                rep.hit("T7-many-occurrences");
+                judge(&mut rep, &a, &cell, want, &format!("prop={};loc={:?};count={}", id, loc, count), case);
             }
         }
     }
